@@ -50,6 +50,33 @@ class FnCtx:
                 out.append((bb, t))
         return out
 
+    def calls_deep(self, fx, *suffixes, depth=2):
+        """calls(...) plus calls to functions that are new with respect to the reference tree (see engine/vplib/inline.py) and
+        whose body, closures or coroutine contain a matching call — for helpers that cannot be inlined (async fn)"""
+        out = list(self.calls(*suffixes))
+        have = {bb for bb, t in out}
+        new = getattr(fx, "new_fn_ids", set())
+
+        def contains(b, d):
+            if d < 0:
+                return False
+            for x in [b] + fx.descendants(b):
+                if x.mir is None:
+                    continue
+                fcx = FnCtx(x)
+                if fcx.calls(*suffixes):
+                    return True
+                for bb2, t2 in x.mir.calls():
+                    if not t2.callee.indirect and t2.callee.res_id in new and t2.callee.res_id != b.id and contains(fx.bodies[t2.callee.res_id], d - 1):
+                        return True
+            return False
+        for bb, t in self.mir.calls():
+            if bb in have or t.callee.indirect or t.callee.res_id not in new or t.callee.res_id not in fx.bodies:
+                continue
+            if contains(fx.bodies[t.callee.res_id], depth):
+                out.append((bb, t))
+        return out
+
     def arg(self, term, i):
         return self.eb.operand(term.args[i])
 
@@ -100,7 +127,11 @@ class FnCtx:
             c = cmp_norm(ce.expr)
             if c is None or ce.true_target is None:
                 return None
-            return pred(*c)
+            r = pred(*c)
+            if r is None:
+                # `0 == x` is `x == 0`, `a < b` is `b > a`
+                r = pred(SWAP[c[0]], c[2], c[1])
+            return r
         return self.guards(p)
 
     def discr_arm(self, scrut_pred, value):
@@ -152,13 +183,29 @@ class FnCtx:
                     out[e[1]] = ds
         return out
 
+    def _variant_defs(self, ds):
+        """[(variant index, 'Option' | 'Result')] per definition when every definition of a local fixes its variant, else None"""
+        if len(ds) < 2:
+            return None
+        out = []
+        for d in ds:
+            if d[0] == "s" and d[3].rv is not None and d[3].rv.kind == "aggregate" and d[3].rv.agg.get("k") == "adt" \
+                    and str(d[3].rv.agg.get("adt", "")).split("::")[-1] in ("Option", "Result"):
+                out.append((d[3].rv.agg.get("vidx"), str(d[3].rv.agg.get("adt", "")).split("::")[-1]))
+            elif d[0] == "t" and d[3].callee is not None and not d[3].callee.indirect and d[3].callee.method() == "from_residual" \
+                    and "Result" in (d[3].dest_ty or self.mir.locals[d[3].dest.local] or ""):
+                out.append((1, "Result"))
+            else:
+                return None
+        return out
+
     def _def_expr(self, d):
         k, bb, i, obj = d
         if k == "t":
             return self.eb.call(obj, bb, 0)
         return self.eb.rvalue(obj.rv, 0)
 
-    def reach_avoiding(self, event_blocks, guard_pred, start=0, const_bools=False):
+    def reach_avoiding(self, event_blocks, guard_pred, start=0, const_bools=True):
         """Blocks of `event_blocks` reachable from `start` along paths that take no guard edge.
         guard_pred(expr, outcome) -> bool is asked for every switch edge with the *effective* condition
         (a switch on a bool variable is replaced by the expression last assigned to it on that path;
@@ -195,6 +242,28 @@ class FnCtx:
             if keep:
                 relevant[L] = ds
         tracked = relevant
+        # Option / Result valued carriers: `let r = if a { Some(x) } else { None }; if let Some(v) = r { .. }` — the later switch on
+        # the discriminant of r follows the variant that was assigned on the path
+        variants = {}
+        for bb0, ce0 in self.ces.items():
+            e0 = ce0.expr
+            if e0[0] == "discr" and e0[1][0] == "local" and not e0[1][2] and e0[1][1] not in tracked:
+                L = e0[1][1]
+                ds = m.whole_defs(L)
+                vs = self._variant_defs(ds)
+                if vs is not None:
+                    variants[L] = vs
+                    tracked[L] = ds
+            # the same through `?`: switch on Try::branch(r) where r is such a carrier (a helper's Result, inlined, whose error
+            # path must not be continued on the Continue arm)
+            if e0[0] == "discr" and e0[1][0] == "call" and e0[1][1].endswith("Try::branch") and e0[1][2]:
+                a0 = E.strip_casts(e0[1][2][0])
+                if a0[0] == "local" and not a0[2] and a0[1] not in tracked:
+                    ds = m.whole_defs(a0[1])
+                    vs = self._variant_defs(ds)
+                    if vs is not None:
+                        variants[a0[1]] = vs
+                        tracked[a0[1]] = ds
         defsite = {}
         for L, ds in tracked.items():
             for n, d in enumerate(ds):
@@ -229,6 +298,18 @@ class FnCtx:
                     e = ce.expr
                     tt, ft = ce.true_target, ce.false_target
                     feasible = True
+                    if e[0] == "discr" and e[1][0] == "local" and not e[1][2] and e[1][1] in variants and e[1][1] in tagd:
+                        v = variants[e[1][1]][tagd[e[1][1]]][0]
+                        if v is not None and s != ce.target_for(v):
+                            continue
+                    if e[0] == "discr" and e[1][0] == "call" and e[1][1].endswith("Try::branch") and e[1][2]:
+                        a1 = E.strip_casts(e[1][2][0])
+                        if a1[0] == "local" and not a1[2] and a1[1] in variants and a1[1] in tagd:
+                            v, ty = variants[a1[1]][tagd[a1[1]]]
+                            if v is not None:
+                                cf = v if ty == "Result" else 1 - v      # Ok -> Continue(0), Err -> Break(1); Some(1) -> Continue(0), None(0) -> Break(1)
+                                if s != ce.target_for(cf):
+                                    continue
                     if e[0] == "local" and not e[2] and e[1] in tagd and tt is not None:
                         de = self._def_expr(tracked[e[1]][tagd[e[1]]])
                         neg = False
@@ -290,6 +371,27 @@ def must_call(fx, body, suffixes, memo, depth=3):
     ok = bool(ev) and not (m.reachable(0, removed_blocks=list(ev)) & rets)
     memo[key] = ok
     return ok
+
+
+def compared_param_fields(fc):
+    """first-level field names of parameters that take part in an == / != comparison anywhere in the function (as a branch
+    condition, or as a value stored in a bool first)"""
+    exprs = [ce.expr for ce in fc.ces.values()]
+    for bb, i, s in fc.mir.stmts():
+        if s.kind == "assign" and s.rv is not None and s.rv.kind == "binop" and s.rv.op in ("Eq", "Ne"):
+            exprs.append(fc.rv_expr(s))
+    for bb, t in fc.mir.calls():
+        if not t.callee.indirect and t.callee.method() in ("eq", "ne"):
+            exprs.append(fc.eb.call(t, bb, 0))
+    got = set()
+    for e in exprs:
+        c = cmp_norm(E.strip_casts(e))
+        if c and c[0] in ("Ne", "Eq"):
+            for x in (c[1], c[2]):
+                x = E.strip_casts(x)
+                if x[0] == "param" and x[2]:
+                    got.add(x[2][0])
+    return got
 
 
 def variant_value(facts, adt_short, variant):
